@@ -733,17 +733,32 @@ func (p *Parser) GroupByClause() ([]ColumnReference, error) {
 	return ret, nil
 }
 
+// maxConditionDepth bounds the number of operands in a chain of ORs or ANDs.
+// The parser (and the evaluator after it) recurses once per operand, so an
+// unbounded chain overflows the stack, which is fatal.
+const maxConditionDepth = 10000
+
+var ErrConditionTooDeep = errors.New("search condition has too many operands")
+
 func (p *Parser) OrCondition() (interface{}, error) {
+	return p.orCondition(1)
+}
+
+func (p *Parser) orCondition(depth int) (interface{}, error) {
 	var ret interface{}
 
-	ret, err := p.AndCondition()
+	if depth > maxConditionDepth {
+		return nil, ErrConditionTooDeep
+	}
+
+	ret, err := p.andCondition(depth)
 	if err != nil {
 		return nil, err
 	}
 
 	for p.match(OR) {
 		ac := SearchCondition{LHS: ret}
-		ac.RHS, err = p.OrCondition()
+		ac.RHS, err = p.orCondition(depth + 1)
 		if err != nil {
 			return nil, err
 		}
@@ -754,7 +769,15 @@ func (p *Parser) OrCondition() (interface{}, error) {
 }
 
 func (p *Parser) AndCondition() (interface{}, error) {
+	return p.andCondition(1)
+}
+
+func (p *Parser) andCondition(depth int) (interface{}, error) {
 	var ret interface{}
+
+	if depth > maxConditionDepth {
+		return nil, ErrConditionTooDeep
+	}
 
 	ret, err := p.Predicate()
 	if err != nil {
@@ -768,7 +791,7 @@ func (p *Parser) AndCondition() (interface{}, error) {
 			return nil, syntaxErr(p.Prev())
 		}
 		ac := BooleanTerm{LHS: lhs}
-		ac.RHS, err = p.AndCondition()
+		ac.RHS, err = p.andCondition(depth + 1)
 		if err != nil {
 			return nil, err
 		}
